@@ -23,10 +23,11 @@ type vxCanvas struct {
 	pathOpen     bool
 	protocol     *[]string // protocol errors (paint or clip without a path)
 	calls        *int      // number of drawing calls (paints, images, gradients, patterns), shared with the groups
+	xf           *[]matrix.Transform // arguments of Transform, shared with the groups
 }
 
 func vxNewCanvas() *vxCanvas {
-	return &vxCanvas{log: new([]string), protocol: new([]string), calls: new(int)}
+	return &vxCanvas{log: new([]string), protocol: new([]string), calls: new(int), xf: new([]matrix.Transform)}
 }
 
 func (c *vxCanvas) emit(s string) {
@@ -46,7 +47,7 @@ func (c *vxCanvas) OnNewStack(f func()) {
 func (c *vxCanvas) State() backend.GraphicState { return c }
 func (c *vxCanvas) NewGroup(x, y, width, height backend.Fl) backend.Canvas {
 	*c.calls++
-	return &vxCanvas{log: new([]string), protocol: c.protocol, calls: c.calls}
+	return &vxCanvas{log: new([]string), protocol: c.protocol, calls: c.calls, xf: c.xf}
 }
 
 func (c *vxCanvas) DrawWithOpacity(opacity backend.Fl, group backend.Canvas) {
@@ -134,7 +135,11 @@ func (c *vxCanvas) SetDash(dashes []backend.Fl, offset backend.Fl) {
 }
 func (c *vxCanvas) SetStrokeOptions(backend.StrokeOptions) {}
 func (c *vxCanvas) GetTransform() matrix.Transform         { return matrix.Identity() }
-func (c *vxCanvas) Transform(mt matrix.Transform)          {}
+func (c *vxCanvas) Transform(mt matrix.Transform) {
+	if c.xf != nil {
+		*c.xf = append(*c.xf, mt)
+	}
+}
 func (c *vxCanvas) SetTextPaint(op backend.PaintOp)        {}
 
 type vxPNode struct {
